@@ -560,21 +560,15 @@ func (db *MultiBucketBackend) PutObject(
 		return result, conflictingObjectName(objectName)
 	}
 
-	if objectDir != "." {
-		if err := db.bucketFs.MkdirAll(objectDir, db.dirMode); err != nil {
-			return result, err
-		}
-	}
-	if err := db.baseFs.Rename(tmpFilePath, filepath.Join(multiBucketsDir, objectFilePath)); err != nil {
-		return result, err
-	}
-	committed = true
-
-	stat, err := db.bucketFs.Stat(objectFilePath)
+	stat, err := db.baseFs.Stat(tmpFilePath)
 	if err != nil {
 		return result, err
 	}
 
+	// The metadata is written before the object is moved into place: if it
+	// cannot be stored (its flattened file name may be too long for the
+	// filesystem) the upload fails while the bucket is still untouched,
+	// instead of leaving an object behind that has no metadata.
 	storedMeta := &Metadata{
 		File:    objectPath,
 		Hash:    hasher.Sum(nil),
@@ -582,9 +576,23 @@ func (db *MultiBucketBackend) PutObject(
 		Size:    stat.Size(),
 		ModTime: stat.ModTime(),
 	}
-	if err := db.metaStore.saveMeta(db.metaStore.metaPath(bucketName, objectName), storedMeta); err != nil {
+	rollbackMeta, err := db.metaStore.replaceMeta(db.metaStore.metaPath(bucketName, objectName), storedMeta)
+	if err != nil {
 		return result, err
 	}
+
+	if objectDir != "." {
+		if err := db.bucketFs.MkdirAll(objectDir, db.dirMode); err != nil {
+			rollbackMeta()
+			return result, err
+		}
+	}
+	if err := db.baseFs.Rename(tmpFilePath, filepath.Join(multiBucketsDir, objectFilePath)); err != nil {
+		rollbackMeta()
+		removeEmptyDirs(db.bucketFs, bucketName, path.Dir(objectName))
+		return result, err
+	}
+	committed = true
 
 	return result, nil
 }
